@@ -175,7 +175,7 @@ def _lex_once(text):
     while lx.token() is not None:
         ntok += 1
     # time waiting for a CPU on a loaded machine is not the lexer's work: take
-    # the thread's CPU time when the clock gives less than the wall time
+    # the process CPU time when that is less than the wall time
     dt = min(time.perf_counter() - t0, time.process_time() - c0)
     return dt, ntok, len(errs)
 
